@@ -206,13 +206,15 @@ def main(ctx):
 _EXE = {}
 
 
-def replay(ctx, ob, checks="XVAQ"):
+def replay(ctx, ob, checks="XVAQ", extra=()):
     """native witness: one body per mobilizer type via the public MobilizedBody API at the counter-model state; compares getMobilizerTransform with the
     documented parameterisation and getMobilizerVelocity / qdotdot with finite differences (RigidBodyNodeSpec_Derived.cpp is compiled from the CURRENT tree)."""
     if "exe" not in _EXE:
         src = os.path.join(REPO, "Simbody/src")
         _EXE["exe"] = native_build(ctx, "c05_replay", os.path.join(VERIF, "replay/c05_replay.cpp"), libs=True,
-                                   extra_srcs=[os.path.join(src, "RigidBodyNodeSpec_Derived.cpp"), os.path.join(src, "RigidBodyNodeSpec.cpp"), "-l:libopenblas.so.0"], extra_inc=[src], timeout=900)
+                                   extra_srcs=[os.path.join(src, "RigidBodyNodeSpec_Derived.cpp"), os.path.join(src, "RigidBodyNodeSpec.cpp"),
+                                               os.path.join(src, "MobilizedBody.cpp"),      # instantiates the inline fit wrappers of RigidBodyNode.h (C05)
+                                               "-l:libopenblas.so.0"], extra_inc=[src], timeout=900)
     exe = _EXE["exe"]
     m = re.match(r"mob\.([A-Za-z]+)(?::([^.]+))?(\.reversed)?", ob.unit or "")
     if (ob.unit or "").startswith("reverse.generic"):
@@ -243,5 +245,7 @@ def replay(ctx, ob, checks="XVAQ"):
     args = [name, opt, "1" if rev else "0", str(len(q))] + [repr(x) for x in q] + [repr(x) for x in u]
     args += ["pitch=%r" % num("pitch", 0.7)] + ["semi%d=%r" % (i, num("semi%d" % i, 0.5 + 0.25 * i)) for i in range(3)]
     args += ["checks=" + checks, "az0=%r" % math.atan2(num("s_az0", 0.2), num("c_az0", 0.9)), "ze0=%r" % math.atan2(num("s_ze0", -0.3), num("c_ze0", 0.8))]
+    for pre in extra:                                       # further counter-model values the driver understands (C05: pt<i>, uold<i>, qold<i>)
+        args += ["%s%d=%r" % (pre, i, num("%s%d" % (pre, i), None)) for i in range(8) if num("%s%d" % (pre, i), None) is not None]
     rc, o, e, t = run([exe] + args, 120)
     return dict(cmd="c05_replay " + " ".join(args), output=o[-3000:]), "REPRODUCED:" in o
